@@ -103,6 +103,9 @@ def execute(case, t):
     boundary_switch = any(master[i] != master[i + 1] for i in bset)
     if boundary_switch:
         t.cls("switch_at_series_boundary")
+    empty = any(len(c["members"]) == 0 for c in tr.end["model"]["clusters"])
+    if sw >= 1 and (empty or len(tr.series) >= 2):
+        t.mark_nontrivial(ce.brief_result(tr))
     if abs(cost - (-overall + within)) <= tolc:
         pass
     elif boundary_switch and abs(cost - (-overall + allpairs)) <= tolc:
@@ -111,9 +114,6 @@ def execute(case, t):
     else:
         raise Violation(f"label_assignment_cost {cost!r} != -overall_log_likelihood + within-series switching cost = "
                         f"{-overall + within!r} (all-pairs reading: {-overall + allpairs!r}; {sw} switches)")
-    empty = any(len(c["members"]) == 0 for c in tr.end["model"]["clusters"])
-    if sw >= 1 and (empty or len(tr.series) >= 2):
-        t.mark_nontrivial(ce.brief_result(tr))
 
 
 def _pinned():
